@@ -53,7 +53,8 @@ def run(ctx):
     if rc != 0:
         key = "harness-abort"
         ctx.violation(key, "the API harness ended abnormally (sanitizer report or crash) rc=%d" % rc,
-                      {"cmd": "%s <workdir> %d %d" % (exe, maxlen, maxsize), "stderr": err[-6000:], "last_line": lines[-1:] },
+                      {"cmd": "%s <workdir> %d %d" % (exe, maxlen, maxsize), "stderr": err[-6000:], "last_complete_case": [l for l in lines if len(l.split()) >= 5][-1:],
+                       "sanitizer_summary": [l for l in err.split("\n") if "SUMMARY" in l or "ERROR: AddressSanitizer" in l or "runtime error" in l][:3]},
                       found_input=True)
     cases, feed = [], []
     nocopy = 0
@@ -65,6 +66,8 @@ def run(ctx):
         front = f[-1] == "FRONTGUARD"
         if front:
             f = f[:-1]
+        if len(f) != 5:
+            continue       # a line cut short by an abort of the harness (reported above as harness-abort)
         site, n, src, before, after = f
         if site not in names:
             ctx.violation("unknown-site:" + site, "harness site not found by the translator", {"site": site}, found_input=False)
